@@ -5,7 +5,7 @@ import numpy as np
 from hypothesis import strategies as st
 
 from pbt.props.c03 import _spell
-from pbt.samples import call, raised, build, sample_spec
+from pbt.samples import derived_from_used_parent, call, raised, build, sample_spec
 
 ID = 'C05'
 LEVEL = 'exploration'
@@ -73,7 +73,7 @@ def _sample_case(draw):
     bins = None if form == 'none' else (draw(st.integers(2, 20)) if form == 'count' else [draw(nb), draw(nb)])
     return dict(arm='sample', spec=spec, sel=sel, spell=[draw(st.sampled_from(['name', 'pos', 'neg'])) for _ in range(2)],
                 bins=bins, xscale=draw(st.sampled_from(['linear', 'log', 'logicle'])),
-                yscale=draw(st.sampled_from(['linear', 'log', 'logicle'])), to_rfi=draw(st.booleans()))
+                yscale=draw(st.sampled_from(['linear', 'log', 'logicle'])), to_rfi=draw(st.booleans()), derived=draw(st.sampled_from([None, None, None, ['slice', 1], ['slice', 2], ['list', 1]])))
 
 
 @st.composite
@@ -152,7 +152,8 @@ def check(case, obs):
         mk = lambda: ([b.copy() if hasattr(b, 'copy') else b for b in bins] if isinstance(bins, list) else bins)
         XY = np.asarray(X, dtype=float)
     else:
-        d = build(case['spec'])
+        spec = case['spec']
+        d = build(spec) if not case.get('derived') else derived_from_used_parent(spec, case['derived'][1], case['derived'][0])
         if case['to_rfi']:
             d = FlowCal.transform.to_rfi(d)
         data = d
@@ -243,13 +244,14 @@ def check(case, obs):
         if kd.size:
             kb = np.argwhere(bm)
             dens = np.array([sH[a, b] for a, b in kb])
-            least = kb[dens == dens.min()]
-            if len(least) == 1:
-                a, b = least[0]
-                obs.claim('minimal', kept - H[a, b] < target,
-                          lambda: 'dropping the least dense kept bin (%d events) leaves %d >= %d' % (H[a, b], kept - H[a, b], target))
-            else:
-                obs.exclude('minimality_tie')
+            least = kb[dens <= dens.min() * (1 + 1e-12)]
+            # among the kept bins of (equal) lowest density at least one must be indispensable: the gate stops at
+            # the first bin of the density order that reaches ceil(f*n)
+            obs.claim('minimal', any(kept - H[a, b] < target for a, b in least),
+                      lambda: 'every one of the %d least dense kept bins can be dropped and still %d >= %d events remain' % (
+                          len(least), kept - max(H[a, b] for a, b in least), target))
+            if len(least) > 1:
+                obs.label('density_tie_at_cutoff')
     # boundary probes: a fraction that asks for exactly the number of events just kept (a cumulative bin count),
     # and its float neighbours -- where ceil(f*n) computed in floats decides between this bin boundary and the next
     if 0 < kept <= n_in:
